@@ -121,6 +121,8 @@ def parse_type(s: str) -> Ty:
             return Ty('strid')
         if name == 'optstrid':
             return Ty('optstrid')
+        if name == 'optdata':
+            return Ty('optdata')
         raise ValueError(f"bad type {s!r} at {name!r}")
 
     t = ty()
@@ -263,6 +265,11 @@ def fresh(ty: Ty, name: str, dims: int = 0) -> V:
         v = VOptInt(z3.Const(name + '?', _arr_sort(B, dims)), z3.Const(name, _arr_sort(I, dims)))
         v.strid = True
         return v
+    if k == 'optdata':
+        # an arbitrary Python data value identified by an id; its truthiness is uninterpreted
+        v = VOptInt(z3.Const(name + '?', _arr_sort(B, dims)), z3.Const(name, _arr_sort(I, dims)))
+        v.data = True
+        return v
     if k == 'tuple':
         return VTuple([fresh(t, f"{name}.{i}", dims) for i, t in enumerate(ty.items)])
     if k == 'rec':
@@ -287,6 +294,8 @@ def type_of(v: V) -> Ty:
     if isinstance(v, VRef):
         return Ty('ref', cls=v.cls, nullable=v.nullable)
     if isinstance(v, VOptInt):
+        if getattr(v, 'data', False):
+            return Ty('optdata')
         return Ty('optstrid') if getattr(v, 'strid', False) else Ty('optint')
     if isinstance(v, VTuple):
         return Ty('tuple', items=[type_of(i) for i in v.items])
@@ -320,6 +329,8 @@ def sel(tree: V, i) -> V:
         r = VOptInt(z3.Select(tree.isnone, i), z3.Select(tree.z, i))
         if getattr(tree, 'strid', False):
             r.strid = True
+        if getattr(tree, 'data', False):
+            r.data = True
         return r
     if isinstance(tree, VTuple):
         return VTuple([sel(t, i) for t in tree.items])
